@@ -104,7 +104,9 @@ pub fn payload(c: &Case) -> Vec<u8> {
 #[derive(Clone, Copy, Debug, PartialEq)]
 pub enum Ch {
     Exact(u8),
-    Range(u8, u8),
+    /// an interpolant that is not a whole number: floor and ceiling of the exact rational num / den, and the value
+    /// rounding to nearest gives
+    Range { lo: u8, hi: u8, den: u8, nearest: u8 },
     Any,
 }
 
@@ -112,7 +114,7 @@ impl Ch {
     fn ok(&self, v: u8) -> bool {
         match self {
             Ch::Exact(x) => *x == v,
-            Ch::Range(a, b) => *a <= v && v <= *b,
+            Ch::Range { lo, hi, .. } => *lo <= v && v <= *hi,
             Ch::Any => true,
         }
     }
@@ -125,7 +127,7 @@ fn interp(num: u32, den: u32) -> Ch {
     if lo == hi {
         Ch::Exact(lo as u8)
     } else {
-        Ch::Range(lo as u8, hi as u8)
+        Ch::Range { lo: lo as u8, hi: hi as u8, den: den as u8, nearest: ((num + den / 2) / den) as u8 }
     }
 }
 
@@ -219,13 +221,34 @@ fn check_texture(c: &Case, file: &[u8], data: &[u8], ctx: &Ctx) -> PResult {
     let three_d = matches!(t.texture_type, TextureType::ThreeDimensional);
     ensure_eq!(three_d, c.attribute & 0x0100_0000 != 0, "texture-type", "three-dimensional flag for attribute {:#x}", c.attribute);
     let rows = h * d;
+    // Which way a non-integral interpolant is rounded is the decoder's choice (down, to nearest, up), but it is one
+    // choice per kind of interpolation (thirds, halves, sevenths, fifths): per denominator, the conventions that
+    // explain every value seen so far in this image, and the first value seen for each
+    let mut viable: [u8; 8] = [0b111; 8];
+    let mut first: [Option<(usize, usize, usize, u8, Ch)>; 8] = [None; 8];
     for y in 0..rows {
         for x in 0..w {
             let want = expected_pixel(c.format, data, w, x, y);
             let o = 4 * (y * w + x);
             for ch in 0..4 {
-                if !want[ch].ok(t.rgba[o + ch]) {
+                let got = t.rgba[o + ch];
+                if !want[ch].ok(got) {
                     return fail(&format!("pixel-differs/{}", format_name(c.format)), format!("{} {}x{}x{} pixel ({}, {}) channel {}: physis={:?} specification={:?}", format_name(c.format), w, h, d, x, y, "RGBA".as_bytes()[ch] as char, &t.rgba[o..o + 4], want));
+                }
+                if let Ch::Range { lo, hi, den, nearest } = want[ch] {
+                    let k = den as usize;
+                    let fits = (got == lo) as u8 | ((got == nearest) as u8) << 1 | ((got == hi) as u8) << 2;
+                    if viable[k] & fits == 0 {
+                        let (fx, fy, fch, fgot, fwant) = first[k].unwrap();
+                        return fail(
+                            &format!("interpolation-rounding-inconsistent/{}", format_name(c.format)),
+                            format!("{} {}x{}x{}: interpolants over {} are rounded in different ways inside one image: pixel ({}, {}) channel {} = {} for {:?}, but pixel ({}, {}) channel {} = {} for {:?}", format_name(c.format), w, h, d, den, fx, fy, fch, fgot, fwant, x, y, ch, got, want[ch]),
+                        );
+                    }
+                    if viable[k] & fits != viable[k] || first[k].is_none() {
+                        first[k] = first[k].or(Some((x, y, ch, got, want[ch])));
+                    }
+                    viable[k] &= fits;
                 }
             }
         }
@@ -364,9 +387,9 @@ fn pre(ctx: &Ctx) {
     let ok = bc1_pixel(&blk, 0, false)[0] == Ch::Exact(255) && bc1_pixel(&blk, 1, false)[0] == Ch::Exact(0) && bc1_pixel(&blk, 2, false)[0] == Ch::Exact(170) && bc1_pixel(&blk, 3, false)[0] == Ch::Exact(85)
         // 3-colour mode: c0 < c1, selector 3 = black with free alpha, selector 2 = midpoint 127.5 -> [127, 128]
         && bc1_pixel(&[0x00, 0x00, 0xFF, 0xFF, 0b1110_0100, 0, 0, 0], 3, false) == [Ch::Exact(0), Ch::Exact(0), Ch::Exact(0), Ch::Any]
-        && bc1_pixel(&[0x00, 0x00, 0xFF, 0xFF, 0b1110_0100, 0, 0, 0], 2, false)[1] == Ch::Range(127, 128)
+        && bc1_pixel(&[0x00, 0x00, 0xFF, 0xFF, 0b1110_0100, 0, 0, 0], 2, false)[1] == Ch::Range { lo: 127, hi: 128, den: 2, nearest: 128 }
         // alpha block 255/0 eight-value mode: selector 2 -> 6*255/7 = 218.57 -> [218, 219]; six-value mode selectors 6/7 -> 0/255
-        && alpha_pixel(&[255, 0, 0b0000_0010, 0, 0, 0, 0, 0], 0) == Ch::Range(218, 219)
+        && alpha_pixel(&[255, 0, 0b0000_0010, 0, 0, 0, 0, 0], 0) == Ch::Range { lo: 218, hi: 219, den: 7, nearest: 219 }
         && alpha_pixel(&[0, 255, 0b0011_1110, 0, 0, 0, 0, 0], 0) == Ch::Exact(0)
         && alpha_pixel(&[0, 255, 0b0011_1110, 0, 0, 0, 0, 0], 1) == Ch::Exact(255)
         && expand565(0xF800) == [255, 0, 0]
@@ -380,8 +403,8 @@ fn pre(ctx: &Ctx) {
 pub fn property() -> Property {
     Property {
         id: "C13",
-        rule: "format in {B8G8R8A8, BC1, BC3, BC5}; width, height 1..64 (512 thorough) including non-multiples of 4; depth 1..8 (height rounded to a multiple of 4 when depth > 1); arbitrary attribute flags, mip field, LOD / surface offsets, 0..200 trailing bytes; random payload with endpoint ties / orderings forced on a random fraction of the blocks. Sweep part: for BC1/BC3/BC5 x 6 endpoint pairs x 3 orderings (>, =, <) x 16 pixel positions x every selector value (4 colour / 8 alpha). Oracle: own per-pixel evaluation from the format definition: BGRA->RGBA; RGB565 endpoints by bit replication (exact); interpolated entries accepted in [floor, ceil] of the exact rational (2a+b)/3, (a+b)/2, ((8-k)a+(k-1)b)/7, ((6-k)a+(k-1)b)/5; BC1 black entry RGB = 0 with unconstrained alpha; BC3 = alpha block over BC1 colour; BC5 = R, G from the two blocks, B = 0, A = 255; rgba.len() = 4wh d; 3-D iff attribute bit 0x1000000. Non-trivial: BCn image with a partial edge block, or depth > 1; distinct by hash of the file.",
-        assumptions: &["exact rounding of interpolants is not asserted (interval of both conventions)", "BC3 colour selectors 2/3 when c0 <= c1 are not asserted", "oracle validated on hand-computed blocks at start-up"],
+        rule: "format in {B8G8R8A8, BC1, BC3, BC5}; width, height 1..64 (512 thorough) including non-multiples of 4; depth 1..8 (height rounded to a multiple of 4 when depth > 1); arbitrary attribute flags, mip field, LOD / surface offsets, 0..200 trailing bytes; random payload with endpoint ties / orderings forced on a random fraction of the blocks. Sweep part: for BC1/BC3/BC5 x 6 endpoint pairs x 3 orderings (>, =, <) x 16 pixel positions x every selector value (4 colour / 8 alpha). Oracle: own per-pixel evaluation from the format definition: BGRA->RGBA; RGB565 endpoints by bit replication (exact); interpolated entries accepted in [floor, ceil] of the exact rational (2a+b)/3, (a+b)/2, ((8-k)a+(k-1)b)/7, ((6-k)a+(k-1)b)/5, and per image and denominator one rounding rule (down, nearest, up) must explain every non-integral interpolant; BC1 black entry RGB = 0 with unconstrained alpha; BC3 = alpha block over BC1 colour; BC5 = R, G from the two blocks, B = 0, A = 255; rgba.len() = 4wh d; 3-D iff attribute bit 0x1000000. Non-trivial: BCn image with a partial edge block, or depth > 1; distinct by hash of the file.",
+        assumptions: &["which rounding rule a decoder uses for interpolants is not asserted (down, nearest and up are all accepted), only that it uses one rule per denominator within an image", "BC3 colour selectors 2/3 when c0 <= c1 are not asserted", "oracle validated on hand-computed blocks at start-up"],
         pre: Some(pre),
         post: None,
         parts: vec![
